@@ -19,8 +19,11 @@ From Coq Require Import ZArith Bool.
 Local Open Scope Z_scope.
 
 Definition two63 : Z := 9223372036854775808.
-Definition wrap64 (x : Z) : Z := (x + two63) mod two64 - two63.     (* int64 arithmetic result *)
-Definition u64 (x : Z) : Z := x mod two64.                           (* uint64(x) *)
+(* int64 / uint64 arithmetic results (two's complement wrap).  The in-range test is only a fast path for the VM
+   (Z.modulo on 64-bit operands is ~0.4 ms there): both branches agree on in-range values. *)
+Definition wrap64 (x : Z) : Z :=
+  if (- two63 <=? x) && (x <? two63) then x else (x + two63) mod two64 - two63.
+Definition u64 (x : Z) : Z := if (0 <=? x) && (x <? two64) then x else x mod two64.
 
 Record wstate := mkW {
   mds : Z;            (* maxDatagramSize *)
